@@ -20,7 +20,7 @@ cd "$h/scratch"
 VERIF_TIER=quick VERIF_SCRATCH="$h/scratch" VERIF_SCALE=${VERIF_SCALE:-1} VERIF_SEED=$seed \
 VERIF_KNOWN=/verif/known_findings.json VERIF_BIN="$h/t.test" VERIF_ROOT="$h" \
 VERIF_EVIDENCE_PART="$h/ev.json" \
-  "$h/t.test" -test.run "${PRESCREEN_RUN:-^Test$prop}" ${PRESCREEN_V:+-test.v} -rapid.seed=$((seed*1000003+12345)) -test.timeout=1200s -test.count=1 > "$h/log" 2>&1
+  "$h/t.test" -test.run "${PRESCREEN_RUN:-^Test$prop}" ${PRESCREEN_V:+-test.v} -rapid.seed=$((seed*1000003+12345)) -test.timeout=${PRESCREEN_TIMEOUT:-1200s} -test.count=1 > "$h/log" 2>&1
 rc=$?
 echo "== prescreen $prop on $wt rc=$rc"
 [ -n "${PRESCREEN_V:-}" ] && grep -v 'rapid\] draw' "$h/log" | tail -${PRESCREEN_TAIL:-30} | cut -c1-400
